@@ -6,6 +6,7 @@
 import TaRs.Lemmas.Core.RateOfChange
 import TaRs.Gen.RateOfChange
 import TaRs.Lemmas.RsLemmas
+import TaRs.Lemmas.Total.RateOfChange
 namespace TaRs.Gen.RateOfChange
 open TaRs TaRs.Rs
 
@@ -38,19 +39,5 @@ theorem next_eq (s : RateOfChange F) (x v v0 : F) (h : WF s)
   try simp only [gen_helper]
   rs_exec
   all_goals (first | omega | (subst hv; subst hv0; rfl))
-
-/-- `next` never panics on a well-formed state, keeps it well-formed and keeps the period -/
-theorem next_total (s : RateOfChange F) (x : F) (h : WF s) :
-    ∃ r, s.next x = some r ∧ WF r.1 ∧ r.1.period = s.period := by
-  have hix : s.index < s.deque.size := by have := h.size; have := h.idx; omega
-  have h0 : 0 < s.deque.size := by have := h.size; have := h.pos; omega
-  refine ⟨_, next_eq s x _ _ h (Array.getElem?_eq_getElem hix) (Array.getElem?_eq_getElem h0), ?_, rfl⟩
-  obtain ⟨hp, hs, hsz, hi, hc⟩ := h
-  constructor <;> simp only [Array.size_setIfInBounds] <;> (try split) <;> omega
-
-theorem nextBar_eq (s : RateOfChange F) (b : Bar F) : s.nextBar b = s.next b.close := by
-  unfold nextBar
-  try simp only [gen_helper]
-  cases h : s.next b.close <;> simp [h]
 
 end TaRs.Gen.RateOfChange
